@@ -119,6 +119,7 @@ structure StoreRun where
   st : Option St := none
   served : List (String × SV) := []     -- every (name, value) the service answered or the start-up cache supplied
   wfail : Bool := false                 -- the cache rejects writes in this store's lifetime
+  nopoll : Bool := false                -- automatic polling is disabled in this store's configuration (no poller, hence no shutdown flush)
   fileTab : Option (List (String × SV)) := none   -- table of the file-backed client, if that is the client
   hist : Nat := 0
   steps : Nat := 0
@@ -264,7 +265,12 @@ def storeLine (st : StoreRun) (lineNo : Nat) (line : String) : Except String (St
            | none => if res == "err" && !isFile then [s!"PROPFAIL C10 retries_until_success {tag} reqs={(get "reqs").take 200}"] else []) ++
           (if isFile && !missing0.isEmpty && (missing0.any fun n => (fileTab.lookup n).isNone) && !(res == "err" && elapsed == 0)
             then [s!"PROPFAIL C10 fileclient_immediate {tag} res={res} elapsed={elapsed}"] else []) ++
+          (if isFile && res == "err" && modelOK && !misconfig && (missing0.all fun n => (fileTab.lookup n).isSome)
+            then [s!"PROPFAIL C10 cache_or_file_suffices {tag} construction failed although every declared secret has a value in the cache or in the client's file: declared={declared} cache={cacheS.take 160} file={get "filedoc" |>.take 160}"] else []) ++
           -- C13
+          (if res == "ok" && hasCache && get "wfail" != "1" && get "writes" == "-" &&
+              (reqs.any fun r => match r.ans with | .value _ => true | _ => false)
+            then [s!"PROPFAIL C13 flush_after_init {tag} construction fetched values from the service and returned without rewriting the cache: reqs={(get "reqs").take 200}"] else []) ++
           (if cacheS == "BAD" && !isFile && res == "ok" && !(declared.all fun n => reqs.any (·.name == n))
             then [s!"PROPFAIL C13 bad_cache_ignored {tag} declared={declared} reqs={get "reqs"}"] else []) ++
           (if res == "ok" && !(snap.all fun e => match cin, e.ent with
@@ -282,7 +288,7 @@ def storeLine (st : StoreRun) (lineNo : Nat) (line : String) : Except String (St
           (if io.elapsedMs == elapsed || res.startsWith "panic" then [] else [s!"DIVERGE init_elapsed {tag} code={elapsed} model={io.elapsedMs}"]) ++
           (if res == "ok" && modelOK && get "writes" != wantWrites then [s!"DIVERGE init_flush {tag} code={(get "writes").take 200} model={wantWrites.take 200}"] else [])
         let key := s!"new:{res}:{if isFile then "file" else "svc"}:{if cacheS.length > 8 then "doc" else cacheS}:dl{if dl < 0 then "-" else "+"}:r{min rounds.length 15}"
-        .ok (mkOut { st with wfail := get "wfail" == "1", fileTab := if isFile then some fileTab else none } (if res == "ok" then some st2 else none) served0 key outs)
+        .ok (mkOut { st with wfail := get "wfail" == "1", nopoll := get "nopoll" == "1", fileTab := if isFile then some fileTab else none } (if res == "ok" then some st2 else none) served0 key outs)
   | kind :: rest =>
     let fs := fields rest
     let get := fun k => (lookup fs k).getD ""
@@ -428,17 +434,18 @@ def storeLine (st : StoreRun) (lineNo : Nat) (line : String) : Except String (St
         .ok (mkOut st (some s') st.served "failupd" outs)
       | _, _ => .error s!"line {lineNo}: bad failupd"
     | "close" =>
-      let want := if s.hasCache then showDoc (docOf s.m) else "-"
+      -- the shutdown flush is the poller's; a store configured without automatic polling has none
+      let want := if s.hasCache && !st.nopoll then showDoc (docOf s.m) else "-"
       -- what the cache holds once the store is closed: the document written at shutdown, or - if
       -- none was written - the one written last.  Its access times must be the store's: a read
       -- refreshes the time, and the time is persisted with the next cache write (the shutdown's at
       -- the latest), or the expiry rule does not hold across a restart.
       let effective : Option Doc := if get "writes" == "-" then s.cache else parseDoc (get "writes")
       let stamps := fun (d : Doc) => d.toList.map fun (n, _, la) => (n, la)
-      let lostStamps := s.hasCache && !st.wfail && (match effective with
+      let lostStamps := s.hasCache && !st.wfail && !st.nopoll && (match effective with
         | some d => stamps d != stamps (docOf s.m)
         | none => !(docOf s.m).isEmpty)
-      let outs := (if s.hasCache && get "writes" == "-" then [s!"PROPFAIL C13 flush_at_shutdown {tag}"] else []) ++
+      let outs := (if s.hasCache && !st.nopoll && get "writes" == "-" then [s!"PROPFAIL C13 flush_at_shutdown {tag}"] else []) ++
                   (if lostStamps then [s!"PROPFAIL C19 access_time_persisted {tag} after Close the cache holds {(effective.map showDoc).getD "nothing"} but the store's secrets and access times are {want.take 300}"] else []) ++
                   (if get "writes" == want then [] else [s!"DIVERGE close_flush {tag} code={(get "writes").take 200} model={want.take 200}"]) ++
                   cmpState s "close_state"
